@@ -82,6 +82,82 @@ CHECKS = {
    note=NOTE_COMMON + " Pre-emption granularity = source lines (as the property states).")
 }
 
+NODE_TECH = ("Coq proof over an executable state-machine model of the node (Model/Node.v); state-for-state correspondence with the real "
+             "diameter.node under the deterministic harness tools/vsim after every event of adaptive random histories; property oracle on the implementation trace")
+NODE_NOTE = (NOTE_COMMON + " Modelled, not verified: the node model is hand-written (macro-step semantics: one external event, then the I/O thread and "
+             "reader threads run to quiescence); its tie to the code is the state-by-state correspondence (peers, connections, tables, outputs, "
+             "threads, sockets) on generated histories, whose generator quality bounds it. vsim (virtual time/sockets/select/threads) is trusted.")
+
+
+def node(pid, what, thms, extra=""):
+    return dict(engine="coq-node", technique=NODE_TECH + ("; " + extra if extra else ""),
+                text=f"Props/{pid}.v ({thms}). {what}", design_ref=f"DESIGN.md section 6 {pid}", note=NODE_NOTE)
+
+
+CHECKS.update({
+ "C06": node("C06", "Gate: in CONNECTED only a CE message of the expected direction is dispatched, in CLOSING/CLOSED nothing; CER of a known peer with a "
+             "common application (or relay) -> CEA 2001 + READY, unknown peer -> 3010 + CLOSING then closed once flushed, nothing shared -> 5010 and "
+             "state unchanged; outbound connection queues its CER first; CEA other than 2001 closes; CER/CEA timeout closes; a connection becomes "
+             "ready only through a good CER / CEA 2001 (direction-exact from CONNECTED).",
+             "C06_gate_connected, C06_gate_closing, C06_cer_known/unknown/no_common, C06_unknown_then_closed, C06_outbound_first_is_cer, C06_cea_rejected, C06_timeout, C06_ready_only_by_ce"),
+ "C07": node("C07", "One dispatched message yields at most one queued message, an answer on the same connection to a REQUEST with its command/app/ids; a "
+             "non-request is never answered; events other than a network read or an application answer queue requests only; every dispatched request that "
+             "passes the gate is answered or delivered.",
+             "C07_dispatch_answers, C07_no_answer_to_answer, C07_answers_only_from, C07_dispatch_all_answers"),
+ "C08": node("C08", "route_app refines a declarative routing specification (realm, application id, peer configured for the app); a delivered message goes to "
+             "exactly one application, base-protocol commands are never delivered, nothing is delivered unless the gate passes.",
+             "C08_route_refines, C08_exactly_once, C08_base_never_delivered, C08_gate_then_route"),
+ "C09": node("C09", "An application's answer is handed to exactly one READY connection under whose host identity the (hop-by-hop, end-to-end) pair was "
+             "waiting, otherwise NotRoutable; entries arise only from delivered requests; second submission fails; entries go with the connection.",
+             "C09_answer_shape, C09_to_requester, C09_entry_from_delivery, C09_entry_host, C09_gone_is_error, C09_second_fails, C09_second_is_error, C09_removed_on_close"),
+ "C10": node("C10", "route_request refines its specification (application's peers for the realm, else defaults, ready only); the request goes to a peer "
+             "chosen from the usable list, identifiers fresh from the generators (bridge to the C16 counter theorems), NotRoutable when none; the "
+             "answer is correlated to the recorded application once, duplicates ignored.",
+             "route_request_spec, C10_request_shape, C10_eligible, C10_none_is_error, C10_hbh_fresh, C10_correlation, C10_duplicate_ignored"),
+ "C11": node("C11", "check_timers unfolded as a decision table over state x timers with per-peer override; exactly one DWR when idle, none while waiting, "
+             "DWA restores READY, silence closes with the watchdog reason, no DWR while traffic arrives, DWR answered 2001 in both ready sub-states, "
+             "timer check idempotent.",
+             "check_timers_unfold, C11_peer_overrides, C11_idle_sends_one, C11_no_second_dwr, C11_dwa_restores, C11_silence_closes, C11_no_dwr_while_busy, C11_dwr_answered, C11_timers_idempotent"),
+ "C12": node("C12", "DPR -> DPA 2001, DISCONNECTING (not offered by route_request), reason recorded; reconnect_all dials exactly the peers satisfying the "
+             "declarative policy (persistent, no connection, wait elapsed, not after DPR unless always-reconnect, not stopping); non-persistent "
+             "peers are never dialled by any event; invariant: at most one self-initiated connection per peer in every reachable state.",
+             "C12_dpr, C12_dpr_not_routed, wants_reconnect_spec, C12_reconnect_iff, C12_never_nonpersistent, C12_dial_needs_no_connection, C12_single_outbound"),
+ "C13": node("C13", "Inductive invariants over every reachable state: table consistency (connections / socket tables / half-ready / peer references), a "
+             "closed connection is in no table and stays closed, removal sets disconnect reason and time. The claim 'peer.connection references a "
+             "live connection of that peer' is REFUTED in the faithful model for two histories (second connection of the same peer; CEA carrying "
+             "another configured peer's identity) and proved under the guard excluding them: recorded known findings.",
+             "I_ids, C13_tables_subset, C13_closed_nowhere, C13_closed_stays_closed, C13_reason_set, remove_conn_sets_reason, guarded/_refuted variants"),
+ "C14": dict(engine="coq-node",
+             technique="Coq proof: inductive invariant of the threading application's slot/queue transition system over every interleaving and handler outcome; correspondence of the real ThreadingApplication under vsim with the model after every event; fault histories with thread-death observation",
+             text=("Props/C14.v: slots held = handlers running + responses queued in every reachable state; capacity returns; both consumers survive every "
+                   "handler outcome and unroutable answers; thread limit respected. Correspondence: random histories (answer / none / raise / slow "
+                   "handlers, limits 0..3, connection loss, clock) compared with Model/Slots.v after every event; node fault histories: no thread "
+                   "death, no spin; serve-after-fault probe. PARTIAL: absence of exceptions the model does not contain is observed, not proved."),
+             design_ref="DESIGN.md section 6 C14", note=NODE_NOTE),
+ "C15": dict(engine="coq-conc",
+             technique="Coq proof: inductive invariant over ALL interleavings (load/store granularity) of the writer and I/O thread programs translated from the source, for all partial-write/soft-error patterns and any encoder; Link lemmas by reflexivity; bounded-preemption schedule exploration of the real node as failing-input search",
+             text=("Props/C15.v: accepted bytes are always a prefix of the concatenated encodings of the stored messages; messages are stored in queueing "
+                   "order; at quiescence the stream equals the concatenation of the encodable messages, each once; an unencodable message contributes "
+                   "nothing and leaves the writer unblocked with the lock free; without the lock the statement is refuted (witness schedules). The two "
+                   "thread programs are regenerated from peer.py/node.py each run (Gen/GenWrite.v) and proved equal to the model's. Exploration: the real "
+                   "node under vsim, pre-emption before every line of the writer, remove_out_bytes, add_out_msg, inside as_bytes and in the send window, "
+                   "scripted partial writes / EAGAIN / EINTR / ENOBUFS, 1..3 producers."),
+             design_ref="DESIGN.md section 6 C15",
+             note=NOTE_COMMON + " The meaning of each micro-instruction (attribute load/store, lock, queue, socket send accepting 1..n bytes) is the model's; SCTP send is not exercised."),
+ "C17": node("C17", "The per-origin window is a bounded FIFO: append keeps the newest `size` identifiers in order, membership after a record, duplicates "
+             "answered exactly when (T flag and identifier still in the window).",
+             "bounded_append_spec, C17_window, C17_sa_mem_get, C17_sa_nodup, C17_dup_iff, C17_record"),
+ "C18": node("C18", "stop: one DPR to every ready connection (none when forced), stopping flag; while stopping no timers fire, nothing is dialled, newcomers "
+             "are closed unserved; DPA closes once output is flushed; stop-finish closes every connection.",
+             "C18_dpr_to_ready, C18_quiet_while_stopping, C18_newcomers_refused, C18_all_closed, C18_close_after_dpa",
+             extra="thread termination and socket closure are observed on the implementation (threads are not in the model): partial"),
+ "C19": node("C19", "Bounded windows in every reachable state; per-connection and per-transaction entries leave the tables with the connection / the answer. "
+             "Implementation: 16 kinds of transaction / connection-attempt histories at N = 1, 10, 100 (1000 thorough); sizes of all containers reachable "
+             "from the Node (structural discovery), live threads by role and unclosed sockets must not depend on N.",
+             "C19_windows_bounded and table-release theorems of Proofs/NodeD.v",
+             extra="N-scaling comparison of retained objects and threads on the real node (threads and sockets are outside the model: partial)"),
+})
+
 NOT_YET = "check not yet built in this revision (planned, see DESIGN.md section 6)"
 
 
